@@ -56,7 +56,7 @@ def gen_wordlist(rng, with_tokens=False, with_cogid=True, max_langs=5, max_conce
                     cogs[len(cogs)] = cid
                     row.append(cid)
                 if extra_cols:
-                    row += [rng.choice(['', 'x y', 'borrowed?', 'ünï']), rng.randrange(0, 50)]
+                    row += [rng.choice(['', 'x y', 'borrowed?', 'ünï']), rng.choice([0, 0, 1, 2, 5, 17, 49])]
                 d[idx] = row
                 idx += 1 if contiguous else rng.choice([1, 1, 1, 2, 7])
     if len(d) < 3:
